@@ -430,6 +430,14 @@ func runC17(c *Cfg) {
 			}
 		}
 	}
+	// sequential batches that end early (stop mode after a failure; cancellation inside an item): what was executed
+	// before keeps exactly the outcome exec returned, nil values included
+	for _, n := range []int{4, 9, 40} {
+		for v := 0; v < 4; v++ {
+			lb = append(lb, &BigBatchCase{Family: "batch-per-item-outcomes", N: n, C: 0, ExecR: v&1 != 0, Builder: v&2 != 0, FailEvery: 7, FailAs: "error", Stop: true, NilEvery: 2})
+			lb = append(lb, &BigBatchCase{Family: "batch-per-item-outcomes", N: n, C: 0, ExecR: v&1 != 0, Builder: v&2 != 0, FailAs: "error", Stop: v%2 == 0, NilEvery: 2, CancelAt: n - 2})
+		}
+	}
 	parallel(c, len(lb), func(i int) {
 		cs := lb[i]
 		fs := runBigBatchCase(cs)
@@ -454,6 +462,9 @@ type BigBatchCase struct {
 	FailEvery int    `json:"fail_every"` // > 0: items i with i%FailEvery == 3 fail
 	FailAs    string `json:"fail_as"`    // "error": (_, err); "error-result": Result-style exec returns (NewErrorResult(err), nil)
 	Big       bool   `json:"big"`
+	Stop      bool   `json:"stop,omitempty"`      // stop-on-error mode (sequential cases only: what was executed before the failure keeps its outcome)
+	NilEvery  int    `json:"nil_every,omitempty"` // > 0: items i with i%NilEvery == 1 succeed with a nil value
+	CancelAt  int    `json:"cancel_at,omitempty"` // > 0: the context is cancelled inside the exec of this item (sequential cases only)
 }
 
 type bigErr struct{ I int }
@@ -473,6 +484,9 @@ func runBigBatchCase(cs *BigBatchCase) (fs []finding) {
 	}()
 	fails := func(i int) bool { return cs.FailEvery > 0 && i%cs.FailEvery == 3 }
 	outs := make([]*int, cs.N) // what exec returned for item i (a fresh pointer per item)
+	nilOut := func(i int) bool { return cs.NilEvery > 0 && i%cs.NilEvery == 1 && !fails(i) }
+	ctx, cancel := context.WithCancel(context.Background())
+	defer cancel()
 	prepB := func(ctx context.Context, s *flyt.SharedStore) ([]flyt.Result, error) {
 		rs := make([]flyt.Result, cs.N)
 		for i := range rs {
@@ -482,8 +496,14 @@ func runBigBatchCase(cs *BigBatchCase) (fs []finding) {
 	}
 	execAny := func(ctx context.Context, v any) (any, error) {
 		i := v.(int)
+		if cs.CancelAt > 0 && i == cs.CancelAt {
+			cancel()
+		}
 		if fails(i) {
 			return nil, &bigErr{i}
+		}
+		if nilOut(i) {
+			return nil, nil
 		}
 		p := new(int)
 		*p = i
@@ -497,6 +517,12 @@ func runBigBatchCase(cs *BigBatchCase) (fs []finding) {
 				return flyt.NewErrorResult(&bigErr{i}), nil
 			}
 			return flyt.Result{}, &bigErr{i}
+		}
+		if cs.CancelAt > 0 && i == cs.CancelAt {
+			cancel()
+		}
+		if nilOut(i) {
+			return flyt.Result{}, nil
 		}
 		p := new(int)
 		*p = i
@@ -520,6 +546,9 @@ func runBigBatchCase(cs *BigBatchCase) (fs []finding) {
 		}
 		bn = flyt.NewBatchNode(opts...).WithPrepFunc(prepB)
 	}
+	if cs.Stop {
+		bn = bn.WithBatchErrorHandling(false)
+	}
 	var slots []flyt.Result
 	posts := 0
 	bn = bn.WithPostFunc(func(ctx context.Context, s *flyt.SharedStore, items, results []flyt.Result) (flyt.Action, error) {
@@ -527,15 +556,40 @@ func runBigBatchCase(cs *BigBatchCase) (fs []finding) {
 		slots = results
 		return "next", nil
 	})
-	if _, err := flyt.Run(context.Background(), bn, flyt.NewSharedStore()); err != nil {
+	if _, err := flyt.Run(ctx, bn, flyt.NewSharedStore()); err != nil {
+		if cs.CancelAt > 0 && errors.Is(err, context.Canceled) {
+			return // a cancelled batch may report the context's error instead of calling post
+		}
 		add("batch-run-error", "batch run failed: %v", err)
 		return
+	}
+	limit := cs.N // items below this index were executed for certain
+	if cs.Stop || cs.CancelAt > 0 {
+		for i := 0; i < cs.N; i++ {
+			if (cs.Stop && fails(i)) || (cs.CancelAt > 0 && i == cs.CancelAt) {
+				limit = i + 1
+				break
+			}
+		}
 	}
 	if posts != 1 || len(slots) != cs.N {
 		add("batch-large-slots", "post called %d times with %d results for %d items", posts, len(slots), cs.N)
 		return
 	}
 	for i, sl := range slots {
+		if i >= limit {
+			break
+		}
+		if nilOut(i) {
+			if sl.IsError() || sl.Value() != nil {
+				what := zoo.Describe(sl.Value())
+				if sl.IsError() {
+					what = "error: " + sl.Error().Error()
+				}
+				add("batch-nil-outcome-replaced", "exec returned a nil value without error for item %d of %d (concurrency %d, stop mode %v, cancelled inside item %d: %v); post received for it %s — not what exec returned", i, cs.N, cs.C, cs.Stop, cs.CancelAt, cs.CancelAt > 0, what)
+			}
+			continue
+		}
 		if fails(i) {
 			var be *bigErr
 			if !sl.IsError() || !errors.As(sl.Error(), &be) || be.I != i {
